@@ -365,6 +365,14 @@ func ruleR48(c *Ctx) {
 			return unsafeIn(y.X, u, depth)
 		case *ast.Ident:
 			v, ok := info.ObjectOf(y).(*types.Var)
+			if ok && !v.IsField() && v.Pkg() == m.Pkg && v.Parent() == m.Pkg.Scope() {
+				switch v.Type().Underlying().(type) {
+				case *types.Array, *types.Slice:
+					// a window of a table shared by the whole package: every key handed out aliases
+					// it, and an append to one writes into the next
+					return "the package-level variable " + v.Name() + " (shared memory, not a copy) at " + m.pos(y.Pos())
+				}
+			}
 			if !ok || v.IsField() || !refLike(v.Type()) {
 				return ""
 			}
@@ -462,6 +470,53 @@ func ruleR48(c *Ctx) {
 	}
 	c.r.note("R48: %d byte-string results of key codecs", n)
 	c.r.floor("R48", 8, "codec results", "C17")
+	// second clause: what the library allocates for a key is sized by the key's length, never by
+	// the capacity of the slice the caller happened to pass (a 16-byte window of a 16 KiB read
+	// buffer would make every stored key keep 16 KiB)
+	probe := c.e.probeKeys()
+	nCap := 0
+	for _, u := range c.sortedUnits() {
+		if u.Body == nil {
+			continue
+		}
+		var stack []ast.Node
+		ast.Inspect(u.Body, func(x ast.Node) bool {
+			if x == nil {
+				stack = stack[:len(stack)-1]
+				return true
+			}
+			stack = append(stack, x)
+			call, ok := x.(*ast.CallExpr)
+			if !ok || !isBuiltinCall(info, call, "cap") || len(call.Args) != 1 {
+				return true
+			}
+			rv, _ := rootVar(info, call.Args[0])
+			if rv == nil || !probe[rv] {
+				return true
+			}
+			// used as a size: inside the arguments of make, or as a bound of a slice expression
+			use := ""
+			for i := len(stack) - 2; i >= 0 && use == ""; i-- {
+				switch p := stack[i].(type) {
+				case *ast.CallExpr:
+					if isBuiltinCall(info, p, "make") {
+						use = "the size of an allocation"
+					}
+				case *ast.SliceExpr:
+					use = "the bound of a slice"
+				case ast.Stmt:
+					i = -1
+				}
+			}
+			if use == "" {
+				return true
+			}
+			nCap++
+			c.r.bad("R48", fmt.Sprintf("%s sizes by the length of the key", u.Name), m.pos(call.Pos()), fmt.Sprintf("cap(%s) – the capacity of the slice the caller passed – is used as %s: how much memory a stored key keeps alive (or which bytes behind the key are looked at) then depends on the buffer the key was cut from, not on the key", types.ExprString(call.Args[0]), use), "C17", "C13")
+			return true
+		})
+	}
+	c.r.note("R48: %d uses of the capacity of a key slice as a size", nCap)
 }
 
 // returnOrdinal: 1-based position of rs among the return statements of u (source order).
